@@ -32,9 +32,14 @@ def sec_to_public_pair(
             y = from_bytes_32(sec[1 + byte_count : 1 + 2 * byte_count])
             if generator and y >= generator.p():
                 raise EncodingError("bad sec encoding for public key")
+            if generator and not generator.contains_point(x, y):
+                raise EncodingError("public pair is not on the curve")
+            if sec0 in (b"\6", b"\7") and (y & 1) != (sec0 == b"\7"):
+                # a hybrid key names the parity of y in its prefix
+                raise EncodingError("bad sec encoding for public key")
             return (x, y)
     elif len(sec) == 1 + byte_count:
-        if not strict or (sec0 in (b"\2", b"\3")):
+        if sec0 in (b"\2", b"\3"):
             is_y_odd = sec0 != b"\2"
             assert generator is not None
             return cast(tuple[int, int], generator.points_for_x(x)[is_y_odd])
